@@ -71,9 +71,12 @@ func c18CheckPartition(ds Set, n int, cls []int, what string) {
 func c18Step(N int) {
 	n := rt.Concrete(rt.IntIn("n", 1, N))
 	ds, root := c18Forest(n)
-	op := rt.Choice("op", 4)
+	op := rt.Choice("op", 5)
 	x := rt.Concrete(rt.IntIn("x", 0, n-1))
 	switch op {
+	case 4:
+		// the derived views straight from an arbitrary valid forest (no lookup before them)
+		c18Views(ds, n, root)
 	case 0, 1:
 		var got int
 		if op == 0 {
@@ -112,7 +115,10 @@ func c18Step(N int) {
 }
 
 // c18Views checks Sets, SmallestRep and Roots against the partition cls.
-func c18Views(ds Set, n int, cls []int) {
+func c18Views(ds0 Set, n int, cls []int) {
+	// each view is taken on its own copy of the state, so that the lookups (and path
+	// compression) of one view cannot prepare the ground for the next
+	ds := append(Set{}, ds0...)
 	sets := ds.Sets()
 	seen := make([]int, n)
 	for i := range seen {
@@ -141,6 +147,8 @@ func c18Views(ds Set, n int, cls []int) {
 			rt.Check((seen[i] == seen[j]) == (cls[i] == cls[j]), "Sets: wrong partition")
 		}
 	}
+	c18CheckPartition(ds, n, cls, "after Sets")
+	ds = append(Set{}, ds0...)
 	sr := ds.SmallestRep()
 	rt.Check(len(sr) == n, "SmallestRep length")
 	for i := 0; i < n; i++ {
@@ -153,6 +161,8 @@ func c18Views(ds Set, n int, cls []int) {
 		}
 		rt.Check(sr[i] == least, "SmallestRep: not the least member")
 	}
+	c18CheckPartition(ds, n, cls, "after SmallestRep")
+	ds = append(Set{}, ds0...)
 	roots := ds.Roots()
 	cnt := make(map[int]int)
 	for _, r := range roots {
